@@ -137,6 +137,11 @@ RACES = [
      [['addcb'], ['send'], ['tick', 100], ['fire', 0]], ['resp', 0, 'rows', False, None], ['resp', 1, 'other', None, 'Invalid']),
     ({'plan': [1, 2, 3], 'timeout': 1000, 'specs': [100], 'pools': {1: 'ok', 2: 'ok', 3: 'ok'}, 'now': 0},
      [['addcb'], ['send'], ['tick', 100], ['fire', 0], ['tick', 900]], ['fire', 1], ['resp', 0, 'rows', False, None]),
+    # the application registers callbacks while the event loop completes the request
+    ({'plan': [1, 2, 3], 'timeout': 1000, 'specs': [], 'pools': {1: 'ok', 2: 'ok', 3: 'ok'}, 'now': 0},
+     [['send']], ['addcb'], ['resp', 0, 'rows', False, None]),
+    ({'plan': [1, 2, 3], 'timeout': 1000, 'specs': [], 'pools': {1: 'ok', 2: 'ok', 3: 'ok'}, 'now': 0},
+     [['send']], ['addcb'], ['resp', 0, 'other', None, 'Invalid']),
 ]
 
 
